@@ -68,6 +68,9 @@ IDENTITY_CALLS = {
 }
 
 
+FRESH_VALUE_CALL = re.compile(r"^(get_[ui]\d+(_le|_ne)?|next|pop(_front|_back)?|try_recv|recv|copy_to_bytes|split_to|split_off|take|remove|swap_remove|read_u\d+)$")
+
+
 class Call:
     __slots__ = ("body", "blk", "t", "callee", "declared", "trait", "self_ty", "name", "args", "dest", "sp", "exp", "target", "fn", "kind", "res_kind", "impl_self")
 
@@ -355,17 +358,25 @@ class Body:
                 out.append(d)
         return out
 
-    def provenance(self, o):
-        """like opath but expands named locals through their single defining call"""
+    def provenance(self, o, uid=False):
+        """like opath but expands named locals through their single defining call.
+        uid=True tags every non-identity call with its block (`get_u8#bb7(..)`), so that values
+        produced by two different calls of the same function are not confused."""
         if o["c"] in ("copy", "move"):
             self._prov = True
+            self._uid = uid
             try:
                 return self.place_path(o["p"], True)
             finally:
                 self._prov = False
+                self._uid = False
         return self.opath(o)
 
     _prov = False
+    _uid = False
+
+    def provenance_u(self, o):
+        return self.provenance(o, uid=True)
 
     def local_path(self, l, deep=True, depth=0, seen=None):
         names, _ = self.names
@@ -417,9 +428,10 @@ class Body:
                     a = c.args[0]
                     if a["c"] in ("copy", "move"):
                         return self.place_path(a["p"], deep, depth + 1, seen)
+                tag = ("#bb%d" % d[1]) if (self._uid and FRESH_VALUE_CALL.match(c.name or "")) else ""
                 if c.args and c.args[0]["c"] in ("copy", "move"):
-                    return "%s(%s)" % (c.callee, self.place_path(c.args[0]["p"], deep, depth + 1, seen))
-                return "%s()" % c.callee
+                    return "%s%s(%s)" % (c.callee, tag, self.place_path(c.args[0]["p"], deep, depth + 1, seen))
+                return "%s%s()" % (c.callee, tag)
         return names.get(l, "_%d" % l)
 
     def place_path(self, p, deep=True, depth=0, seen=None):
@@ -1143,3 +1155,87 @@ def _def_blocks(self, l):
 Body.loops = _loops
 Body.loops_containing = _loops_containing
 Body.def_blocks = _def_blocks
+
+
+# ---------------------------------------------------------------------------
+# flow-sensitive small-constant evaluation (reaching definitions)
+# ---------------------------------------------------------------------------
+def _reaching_defs(self, l, blk, idx):
+    """definitions of local `l` (whole-local assigns / call destinations) that reach statement index `idx`
+    of block `blk` (idx = len(statements) means the terminator). Returns list of (blk, idx_or_None)."""
+    out = []
+    seen = set()
+
+    def scan(b, upto):
+        sts = self.blocks[b]["st"]
+        for i in range(min(upto, len(sts)) - 1, -1, -1):
+            st = sts[i]
+            if st["k"] == "assign" and st["p"]["l"] == l and not st["p"]["pr"]:
+                out.append((b, i))
+                return True
+        return False
+
+    def from_preds(b):
+        for p in self.pred[b]:
+            if p in seen:
+                continue
+            seen.add(p)
+            t = self.blocks[p]["t"]
+            if t["k"] == "call" and t["dest"]["l"] == l and not t["dest"]["pr"]:
+                out.append((p, None))
+                continue
+            if not scan(p, 10 ** 9):
+                from_preds(p)
+
+    if not scan(blk, idx):
+        seen.add(blk) if False else None
+        from_preds(blk)
+    return out
+
+
+def _values_at(self, o, blk, idx, depth=0):
+    """set of small integers the operand may hold at (blk, idx), following reaching definitions through
+    use / cast / BitOr / BitAnd / Add / Sub / Mul / Shl; None = unknown"""
+    if depth > 12:
+        return None
+    if o["c"] == "const":
+        return {o["int"]} if "int" in o else None
+    if o["c"] not in ("copy", "move"):
+        return None
+    p = o["p"]
+    if p["pr"]:
+        if len(p["pr"]) == 1 and p["pr"][0][0] == "field" and p["pr"][0][2] == "0":
+            return self.values_at({"c": "copy", "p": {"l": p["l"], "pr": [], "s": "", "ty": ""}}, blk, idx, depth + 1)
+        return None
+    defs = self.reaching_defs(p["l"], blk, idx)
+    if not defs:
+        return None
+    out = set()
+    for db, di in defs:
+        if di is None:
+            return None
+        rv = self.blocks[db]["st"][di]["r"]
+        k = rv["k"]
+        if k in ("use", "cast"):
+            v = self.values_at(rv["o"], db, di, depth + 1)
+        elif k == "binop":
+            op = rv["op"].replace("WithOverflow", "").replace("Unchecked", "")
+            a = self.values_at(rv["a"], db, di, depth + 1)
+            b = self.values_at(rv["b"], db, di, depth + 1)
+            if a is None or b is None:
+                return None
+            fn = {"BitOr": lambda x, y: x | y, "BitAnd": lambda x, y: x & y, "Add": lambda x, y: x + y, "Sub": lambda x, y: x - y,
+                  "Mul": lambda x, y: x * y, "Shl": lambda x, y: x << y, "BitXor": lambda x, y: x ^ y}.get(op)
+            if fn is None:
+                return None
+            v = {fn(x, y) for x in a for y in b}
+        else:
+            return None
+        if v is None or len(v) > 64:
+            return None
+        out |= v
+    return out
+
+
+Body.reaching_defs = _reaching_defs
+Body.values_at = _values_at
